@@ -5,12 +5,15 @@ import (
 	"context"
 	"encoding/json"
 	"fmt"
+	"io"
 	"io/ioutil"
+	"net"
 	"net/http"
 	"net/http/httptest"
 	"os"
 	"strings"
 	"sync/atomic"
+	"syscall"
 	"testing"
 	"time"
 
@@ -50,6 +53,9 @@ type c13Attempt struct {
 	// GiveUp (timeout kind): the Prometheus side hangs up before the proxy's own scrape has ended - its timer for the
 	// same scrape_timeout started earlier.  The attempt the proxy made is a failed attempt all the same.
 	GiveUp bool `json:"giveUp,omitempty"`
+	// Err (transport kind): how the connection fails: "" refused | eof (the target reads the request and hangs up
+	// without answering) | reset (connection reset by peer) | epipe
+	Err string `json:"err,omitempty"`
 }
 
 type c13Case struct {
@@ -99,6 +105,14 @@ func runC13(rec *vkit.Recorder, c *c13Case) []vkit.Violation {
 		}
 		switch kind {
 		case "transport":
+			switch cur.Err {
+			case "eof":
+				return nil, io.EOF
+			case "reset":
+				return nil, &net.OpError{Op: "read", Net: "tcp", Err: os.NewSyscallError("read", syscall.ECONNRESET)}
+			case "epipe":
+				return nil, &net.OpError{Op: "write", Net: "tcp", Err: os.NewSyscallError("write", syscall.EPIPE)}
+			}
 			return nil, fmt.Errorf("dial tcp: connection refused (scripted)")
 		case "status":
 			code := cur.Status
@@ -293,6 +307,10 @@ func runC13(rec *vkit.Recorder, c *c13Case) []vkit.Violation {
 				if after.ScrapeTimes != before.ScrapeTimes+1 && reqs <= 1 {
 					add("C13/counter/"+key, "attempt %d: scrape counter went from %d to %d", i, before.ScrapeTimes, after.ScrapeTimes)
 				}
+				if reqs > 1 && after.ScrapeTimes != before.ScrapeTimes+uint64(reqs) {
+					// the in-memory transport never repeats a request by itself: the proxy made reqs scrape attempts
+					add("C13/counter/"+key, "attempt %d (%+v): the proxy asked the target %d times for one scrape of Prometheus, the scrape counter went from %d to %d (every attempt counts exactly once)", i, a, reqs, before.ScrapeTimes, after.ScrapeTimes)
+				}
 			}
 			rec.Eval(true, vkit.Digest(a.Kind, a.Lines, a.Offset, a.Cut, a.Assigned, a.During), "kind/"+key)
 			if len(vs) > 0 {
@@ -369,6 +387,9 @@ func genC13(t *rapid.T) *c13Case {
 		a.Kind = rapid.SampledFrom(kinds).Draw(t, l+"-kind")
 		if a.Kind == "status" {
 			a.Status = rapid.SampledFrom([]int{503, 500, 404, 401, 429, 204, 206, 202, 201}).Draw(t, l+"-status")
+		}
+		if a.Kind == "transport" {
+			a.Err = rapid.SampledFrom([]string{"", "eof", "reset", "epipe"}).Draw(t, l+"-err")
 		}
 		if a.Kind == "timeout" {
 			timeouts++
